@@ -556,6 +556,8 @@ CopyIndependent ==
 
 (* state constraint of the copy-of-woken configuration (Publisher_copywoken.cfg): nobody leaves *)
 NobodyLeft == ~left
+(* ... of the two-publisher configuration: every subscriber joins before anything is published or closed *)
+JoinFirst == (pos > 1 \/ closed) => njoin = MaxJoin
 
 (* registration slots and free list *)
 RECURSIVE FreeWalk(_, _)
